@@ -187,7 +187,13 @@ Fixpoint trace_ok (S : sources) (e : fexp) (zero : Qc) (fuel n : nat) (xh yh : l
             end
           else (* the input or a coefficient source has ended: a clean stop *)
             match rest with
-            | [EvStop] => ends_with_none rs
+            | [EvStop] =>
+                ends_with_none rs &&
+                (* the input ended: no coefficient source is read for an output that does not come *)
+                match S 0%nat n with
+                | None => match rs with [_] => true | _ => false end
+                | Some _ => true
+                end
             | [EvRaise XZeroDiv] => silent_at S n F
             | _ => false
             end
